@@ -31,6 +31,7 @@ import (
 import (
 	"github.com/bfenetworks/bfe/bfe_basic"
 	"github.com/bfenetworks/bfe/bfe_basic/condition/parser"
+	"github.com/bfenetworks/bfe/bfe_http"
 	"github.com/bfenetworks/bfe/bfe_util"
 	"github.com/bfenetworks/bfe/bfe_util/net_util"
 	"github.com/spaolacci/murmur3"
@@ -239,7 +240,13 @@ func (q *QueryValueFetcher) Fetch(req *bfe_basic.Request) (interface{}, error) {
 		return nil, fmt.Errorf("fetcher: nil pointer")
 	}
 
-	return req.CachedQuery().Get(q.key), nil
+	// a missing key is not the same as a key with an empty value
+	values, ok := req.CachedQuery()[q.key]
+	if !ok || len(values) == 0 {
+		return nil, fmt.Errorf("fetcher: query key not found")
+	}
+
+	return values[0], nil
 }
 
 type QueryExistMatcher struct{}
@@ -313,7 +320,18 @@ func (r *HeaderValueFetcher) Fetch(req *bfe_basic.Request) (interface{}, error) 
 		return nil, fmt.Errorf("fetcher: nil pointer")
 	}
 
-	return req.HttpRequest.Header.Get(r.key), nil
+	return firstHeaderValue(req.HttpRequest.Header, r.key)
+}
+
+// firstHeaderValue returns the first value of header key, or an error if the header is absent
+// (a missing header is not the same as a header with an empty value).
+func firstHeaderValue(header bfe_http.Header, key string) (interface{}, error) {
+	values, ok := header[bfe_http.CanonicalHeaderKey(key)]
+	if !ok || len(values) == 0 {
+		return nil, fmt.Errorf("fetcher: header not found")
+	}
+
+	return values[0], nil
 }
 
 type BypassMatcher struct{}
@@ -590,7 +608,7 @@ func (uaf *UAFetcher) Fetch(req *bfe_basic.Request) (interface{}, error) {
 		return nil, fmt.Errorf("fetcher: nil pointer")
 	}
 
-	return req.HttpRequest.Header.Get("User-Agent"), nil
+	return firstHeaderValue(req.HttpRequest.Header, "User-Agent")
 }
 
 type ResHeaderKeyInFetcher struct {
@@ -621,7 +639,7 @@ func (r *ResHeaderValueFetcher) Fetch(req *bfe_basic.Request) (interface{}, erro
 		return nil, fmt.Errorf("fetcher: nil pointer")
 	}
 
-	return req.HttpResponse.Header.Get(r.key), nil
+	return firstHeaderValue(req.HttpResponse.Header, r.key)
 }
 
 type ResCodeFetcher struct{}
